@@ -99,3 +99,13 @@ Print Assumptions C05_generic_env_accepts_digits.
 Print Assumptions C05_generic_env_rejects.
 Print Assumptions C05_generic_env_ok_iff.
 Print Assumptions C05_generic_env_examples.
+
+(** SOURCE TIE (fee split).  Both transactions derived from an acquisition with a crypto fee get their timestamp from
+    f"{transaction.timestamp}" (str(datetime): microseconds and offset kept), as re-read from the source on every run
+    (Generated.gen_split_in_args / gen_split_fee_args) and interpreted by Model/SplitGen.v: the lot and the artificial fee
+    disposal carry the instant of the row.  A re-serialisation without the sub-second part stops compiling here. *)
+From RP2V Require Import Model.Txn Model.Parser Model.SplitGen Proofs.SplitGenProofs.
+Theorem C05_source_tie_fee_split_timestamps :
+  forall a r, split_in_gen a = split_in a /\ fee_out_gen a r = fee_out a r.
+Proof. exact split_pair_agrees. Qed.
+Print Assumptions C05_source_tie_fee_split_timestamps.
